@@ -1033,6 +1033,10 @@ impl<T: Serialize + for<'de> Deserialize<'de> + Clone + PartialEq + Send + Sync 
         let mut framed_end = 0u64;
         // Records of batches whose commit marker has not been seen yet, by transaction
         let mut open_batches: HashMap<u64, Vec<WalEntry>> = HashMap::new();
+        // (transaction, type, key) of every record accepted so far: the writer emits
+        // each combination once, so a second copy was put there by something else
+        let mut seen_records: std::collections::HashSet<(u64, u8, String)> =
+            std::collections::HashSet::new();
 
         loop {
             // Read entry size
@@ -1098,6 +1102,23 @@ impl<T: Serialize + for<'de> Deserialize<'de> + Clone + PartialEq + Send + Sync 
                     file_path: path.to_path_buf(),
                     corruption_type: CorruptionType::ChecksumMismatch,
                     offset: file.stream_position().unwrap_or(0) - entry_size as u64,
+                    recovery_action: RecoveryAction::Skipped,
+                });
+                stats.entries_failed += 1;
+                continue;
+            }
+
+            // A verified record that appears twice is a copy (verbatim duplication
+            // keeps the HMAC valid). Replaying it would resurrect an old value.
+            if !seen_records.insert((
+                entry.transaction_id,
+                entry.transaction_type as u8,
+                entry.key.clone(),
+            )) {
+                stats.corruption_events.push(CorruptionEvent {
+                    file_path: path.to_path_buf(),
+                    corruption_type: CorruptionType::InvalidFormat,
+                    offset: framed_end - 4 - entry_size as u64,
                     recovery_action: RecoveryAction::Skipped,
                 });
                 stats.entries_failed += 1;
